@@ -26,7 +26,7 @@ class Printer:
     def __init__(self, ident=None, table=None, param=None):
         """ident(node) -> sql text for a column identifier; table(node) -> sql text for a table identifier;
         param(node) -> sql text for a Parameter node."""
-        self.ident = ident or (lambda n: '.'.join(q(p) for p in n.parts))
+        self.ident = ident or (lambda n: '.'.join(q(p) if isinstance(p, str) else '*' for p in n.parts))
         self.table = table or (lambda n: '.'.join(q(p) for p in n.parts))
         self.param = param
 
